@@ -895,3 +895,48 @@ def long_list_family():
             e = {"etype": "sel", "name": "q0", "parent": None, "list": "l0", "seltype": "select_one",
                  "cells": {("label", None): "QL0"}}
             yield {"style": "::", "elems": [e], "choices": choices}
+
+
+def xlsx_of_case(case: dict, noise_seed: int) -> bytes:
+    """The case as an .xlsx workbook (openpyxl, in memory) with content-neutral layout noise: unnamed spacer columns between
+    the named ones (empty or whitespace-only header, empty cells), trailing whitespace-only header cells, blank rows between
+    data rows.  Deterministic in `noise_seed`."""
+    import io
+    import random as _r
+
+    import openpyxl
+
+    rng = _r.Random(noise_seed)
+    wb = openpyxl.Workbook()
+    wb.remove(wb.active)
+
+    def sheet(name, cols, rows, blank_rows=True):
+        ws = wb.create_sheet(name)
+        pos, c = {}, 1
+        for h in cols:
+            while rng.random() < 0.3:  # spacer column(s) before this one
+                if rng.random() < 0.3:
+                    ws.cell(row=1, column=c, value="  ")
+                c += 1
+            pos[h] = c
+            ws.cell(row=1, column=c, value=h)
+            c += 1
+        for _ in range(rng.randint(0, 2)):  # trailing empty columns
+            ws.cell(row=1, column=c, value=" ")
+            c += 1
+        r = 2
+        for row in rows:
+            while blank_rows and rng.random() < 0.15:  # blank row (the settings sheet reads its first row only: none there)
+                r += 1
+            for h, v in row.items():
+                ws.cell(row=r, column=pos[h], value=v)
+            r += 1
+
+    sheet("survey", case["survey_cols"], case["survey"])
+    if case["choices"] or case["choices_cols"]:
+        sheet("choices", case["choices_cols"], case["choices"])
+    if case["settings"]:
+        sheet("settings", list(case["settings"]), [case["settings"]], blank_rows=False)
+    buf = io.BytesIO()
+    wb.save(buf)
+    return buf.getvalue()
